@@ -63,6 +63,7 @@ type IgnoreRules struct {
 func ParseIgnore(data []byte) *IgnoreRules {
 	r := &IgnoreRules{}
 	for _, l := range strings.Split(string(data), "\n") {
+		l = strings.TrimSuffix(l, "\r") // a .goitignore written with CRLF line ends
 		if l == "" {
 			continue
 		}
@@ -85,28 +86,36 @@ func (r *IgnoreRules) Ignored(p string) tri {
 	if r == nil {
 		return no
 	}
-	base := p[strings.LastIndexByte(p, '/')+1:]
+	comps := strings.Split(p, "/")
+	base := comps[len(comps)-1]
+	dirComps := comps[:len(comps)-1]
+	res := no
 	for _, d := range r.dirs {
 		if strings.HasPrefix(p, d+"/") {
 			return yes
 		}
-		// the same directory name deeper in the tree, or a name merely containing it: not decided by the statement
-		if strings.Contains(p, d) {
-			return unknown
+		// the same directory name deeper in the tree: whether "name/" reaches it is not decided by the statement
+		for i, c := range dirComps {
+			if i > 0 && c == d {
+				res = unknown
+			}
 		}
 	}
 	for _, e := range r.exts {
 		if strings.HasSuffix(base, e) {
 			return yes
 		}
-		if strings.Contains(p, e) {
-			return unknown
+		// a DIRECTORY whose name carries the extension: the statement speaks of files only
+		for _, c := range dirComps {
+			if strings.HasSuffix(c, e) {
+				res = unknown
+			}
 		}
 	}
 	if len(r.other) > 0 {
 		return unknown
 	}
-	return no
+	return res
 }
 
 func (a *Abs) IgnoreRules() *IgnoreRules {
